@@ -5,7 +5,7 @@
    a string); decoders: Spec/Codec.v, Spec/Html.v. *)
 From Soy Require Import Model.Bytes Generated.Tables Model.Utf8 Model.Num Model.Outcome Model.Values Model.Escape Model.Directives Model.JsEscape
   Model.JsonEncode Spec.Html Spec.Codec Spec.Json Proofs.Utf8Proofs Proofs.CodecProofs Proofs.CodecJsPair Proofs.CodecJsonNum Proofs.CodecJson Proofs.CodecJsonInert
-  Model.JsDirectives Spec.JsUnits Proofs.CodecJsUnits.
+  Model.JsDirectives Spec.JsUnits Proofs.CodecJsUnits Proofs.CodecJsAgree.
 Open Scope N_scope.
 
 (* ---------------- escapeUri ---------------- *)
@@ -372,3 +372,10 @@ Example C16_js_nonvacuous :
   /\ u_insert_word_breaks [97; 60; 98; 99; 100] 2 = b "a&lt;<wbr>bc<wbr>d"
   /\ u_change_newline_to_br [97; 13; 10; 60] = b "a<br>&lt;".
 Proof. vm_compute. repeat split; try reflexivity. eexists; reflexivity. Qed.
+
+(* ---------------- Go directive == JavaScript helper on the common domain ---------------- *)
+(* truncate counts bytes in Go and code units in JavaScript; on ASCII text and a non-negative limit they agree *)
+Theorem C16_truncate_go_js_agree_ascii : forall s n e, Forall (fun c => c < 128) s -> (0 <= n)%Z ->
+  truncate s n e = Ok (u_truncate s n e).
+Proof. exact truncate_agrees_ascii. Qed.
+Print Assumptions C16_truncate_go_js_agree_ascii.
